@@ -176,6 +176,9 @@ theorem unknown_variant_not_found (copy : Bool) (env : Env) (R : Registry) (base
       simp [List.isSuffixOf, sfxTruecolor, sfx256color, List.isPrefixOf]
     simp [lookupBody, hne, searchTC, search256, h0, h256, stripSuffix_append, hnone sufTrue hs]
 
+example : (∀ s ∈ suf256, (lookupG false {} R₀ (nm "nosuch" ++ s)).1 = none) ∧ R₀.find (nm "nosuch" ++ sfx256color) = none := by
+  decide +kernel
+
 /-- A failing lookup never edits the registry (pinned and repaired code alike). -/
 theorem not_found_pure (copy : Bool) (env : Env) (R : Registry) (name : Name)
     (h : (lookupG copy env R name).1 = none) : (lookupG copy env R name).2 = R :=
@@ -326,6 +329,9 @@ theorem env_truecolor (copy : Bool) (env : Env) (R : Registry) (name : Name) (id
   · simp [finishVal, T.2.2 h1 h2]
   · simp [finishVal, T.1 h1]
 
+/-- the hypotheses of `env_truecolor` / `lookup_registered` hold on the real database -/
+example : nm "xterm-kitty" ≠ [] ∧ (R₀.find (nm "xterm-kitty")).isSome = true := by decide +kernel
+
 example : ({ colorterm := "24bit" } : Env).colortermOn = true ∧ ({ colorterm := "yes" } : Env).colortermOn = false ∧
     ({ tcellTruecolor := "disable" } : Env).finalTC true = false ∧ ({ tcellTruecolor := "1" } : Env).finalTC false = true := by
   decide
@@ -424,6 +430,10 @@ theorem synth_truecolor (copy : Bool) (env : Env) (R R' : Registry) (base : Name
     cases he : rgbAllEmpty (R'.get r)
     · simp [he]
     · simp only [if_true, rgbAllEmpty_addRGB]
+
+/-- the hypotheses of `synth_truecolor` hold on the real database: `screen-truecolor` (from `screen-256color`) -/
+example : R₀.find (nm "screen" ++ sfxTruecolor) = none ∧
+    (firstFound (lookupG false {}) (nm "screen") sufTrue R₀).1.isSome = true := by decide +kernel
 
 /-- on the real database, neutral environment: for every registered NAME, `NAME-256color` (when a `-88color`/`-color`
     sibling exists) has 256 colours and the standard sequences, and `NAME-truecolor` resolves with RGB strings -/
